@@ -192,20 +192,19 @@ def check(cx):
         f = cx.guard(r4, name, p.fn, HDR + "::" + name)
         if not f or not mx:
             continue
+        def is_max(o, depth=0):
+            """the operand is the constant MAX_TRACKED_ABORTED_TXS itself (possibly copied / cast into a local) - not a value
+            computed from it (`id % MAX`, an index)"""
+            k = op_const(o) or {}
+            if k:
+                return k.get("v") == mx or str(k.get("cdef", "")).endswith("MAX_TRACKED_ABORTED_TXS")
+            l = op_local(o)
+            if l is None or depth > 4:
+                return False
+            defs = [st for b_ in f.blocks for st in b_["stmts"] if st["dst"] == [l]]
+            return len(defs) == 1 and defs[0]["rv"].get("r") in ("use", "cast") and is_max(defs[0]["rv"]["o"][0], depth + 1)
         cmps = [s for b in f.blocks for s in b["stmts"] if s["rv"].get("r") == "bin" and s["rv"]["op"] in ("Lt", "Le", "Gt", "Ge")
-                and any((op_const(o) or {}).get("v") == mx or (op_const(o) or {}).get("cdef", "").endswith("MAX_TRACKED_ABORTED_TXS")
-                        or any((op_const(o2) or {}).get("cdef", "").endswith("MAX_TRACKED_ABORTED_TXS") for o2 in []) for o in s["rv"]["o"])]
-        # the constant may be loaded into a local first (cast usize -> u64)
-        if not cmps:
-            klocals = set()
-            for b in f.blocks:
-                for s in b["stmts"]:
-                    for o in s["rv"].get("o", []) if isinstance(s["rv"].get("o"), list) else []:
-                        k = op_const(o) or {}
-                        if k.get("v") == mx or str(k.get("cdef", "")).endswith("MAX_TRACKED_ABORTED_TXS"):
-                            klocals.add(s["dst"][0])
-            cmps = [s for b in f.blocks for s in b["stmts"] if s["rv"].get("r") == "bin" and s["rv"]["op"] in ("Lt", "Le", "Gt", "Ge")
-                    and any(op_local(o) in klocals or (op_local(o) is not None and f.dep_closure(op_local(o)) & klocals) for o in s["rv"]["o"])]
+                and any(is_max(o) for o in s["rv"]["o"])]
         good = bool(cmps)
         why = []
         for s in cmps:
